@@ -385,6 +385,38 @@ fn sealed(job: &Value) {
             "regions": regions.iter().map(|r| json!([r.0, r.1, r.2])).collect::<Vec<_>>(),
             "class_none": Ctx::NoKeys.class(&d), "class_wrong": wrong.class(&d),
             "class_right": right.iter().map(|(n, cx)| json!([n, cx.class(&d)])).collect::<Vec<_>>()});
+        // totality under edits of whole 16-bit length words (field lengths, authenticator length, nonce length,
+        // ciphertext length), each set to boundary values, decoded in every key context
+        let mut word_offsets: Vec<usize> = lay.auth_fields.iter().map(|(s, _)| s + 2).collect();
+        word_offsets.extend([a[0] + 2, a[1], a[1] + 2]);
+        if trailing {
+            word_offsets.push(a[6] + 2);
+        }
+        let mut word_panics = vec![];
+        let mut word_decodes = 0u64;
+        for &off in &word_offsets {
+            let orig = u16::from_be_bytes([d[off], d[off + 1]]);
+            for v in [0u16, 1, 3, 4, 5, 8, 15, 16, 17, 24, 28, 0x00FF, 0x0100, 0x7FFF, 0x8000, 0xFF00, 0xFFFB, 0xFFFC, 0xFFFD, 0xFFFE, 0xFFFF,
+                      orig.wrapping_sub(1), orig.wrapping_add(1), orig.wrapping_add(4)] {
+                if v == orig {
+                    continue;
+                }
+                let mut x = d.clone();
+                x[off..off + 2].copy_from_slice(&v.to_be_bytes());
+                let mut all: Vec<(&str, &Ctx)> = right.iter().map(|(n, c)| (*n, c)).collect();
+                all.push(("none", &Ctx::NoKeys));
+                all.push(("wrong", &wrong));
+                for (n, cx) in all {
+                    word_decodes += 1;
+                    let r = cx.class(&x);
+                    if r.starts_with("panic") && word_panics.len() < 8 {
+                        word_panics.push(json!({"ctx": n, "offset": off, "region": region_of(off), "value": v, "panic": r}));
+                    }
+                }
+            }
+        }
+        res["word_decodes"] = json!(word_decodes);
+        res["word_panics"] = json!(word_panics);
         let mut stats: std::collections::BTreeMap<String, [u64; 3]> = Default::default();
         let mut bad = vec![];
         let mut baseline = "ok".to_string();
